@@ -21,6 +21,7 @@ SEQ_FIELDS = ('r0', 'r1', 'r2', 'drops', 'st')
 KF_LATE = 'unicast late subscriber loses the backlog'
 KF_UU = 'Unsubscribe is not atomic with a broadcast in progress'
 KF_LOST = 'unicast loses a value captured before the observer left'
+KF_REENTER = 'unicast Subscribe re-enters its own lock'
 
 
 def proj_seq(d):
@@ -93,6 +94,24 @@ def check(ctx):
     # ---- (K) sequential correspondence: real subject = model, on every generated sequence
     rows = R.run_kind(ctx, 'subject')
     R.compare(ctx, rows, proj_seq, 'C10 sequential: real subject vs step function', oracle=oracle_seq, nontrivial=nontrivial_seq)
+
+    # ---- subjects subscribed with a ready-made Subscriber (what pass-through operators hand upstream): already unsubscribed (X), or
+    #      unsubscribing itself inside its first Next (Y) - reduced to the sequential model by the driver (Subscribe, then Unsubscribe at the
+    #      point where the subscriber closed; what was delivered to a closed subscriber goes to the dropped hook). Known class: the unicast
+    #      subject registers its teardown while holding s.mu, and that teardown takes s.mu: when the subscriber is closed by then the
+    #      teardown runs at once and Subscribe never returns (hang=<k>).
+    xrows = R.run_kind(ctx, 'subjx', shards=4)
+    hung = [(c, g, l) for c, g, l in xrows if R.parse_res(g).get('hang', '0') != '0' and 'op=unicast' in c]
+    rest = [r for r in xrows if r not in hung]
+    R.compare(ctx, rest, proj_all, 'C10 subjects subscribed with a ready-made Subscriber (closed / closing itself in its first callback)', nontrivial=lambda c, gd: True, max_report=2)
+    if hung and KF_REENTER not in reproduced:
+        c, g, l = min(hung, key=lambda t: len(t[0]))
+        ctx.violation(f'C10/C06 unicast subject: Subscribe with a Subscriber that is closed by the time the teardown is registered never returns ({len(hung)} cases)',
+                      f'# the teardown `s.mu.Lock(); s.observer = nil` is registered by subscription.Add while SubscribeWithContext holds s.mu (subject_unicast.go:63-98);\n'
+                      f'# Add runs a teardown at once on a disposed subscription\n{c}\n# implementation: {g}\n# model: {l}\n')
+    elif hung:
+        ctx.notes.append(f'known class {KF_REENTER}: {len(hung)} cases of this run')
+    extra['subjx'] = dict(cases=len(xrows), unicast_hangs=len(hung))
 
     # ---- model vs sequential definition on the same cases (validation of the theorems' statements;
     #      together with the previous step: real subject vs definition)
